@@ -282,7 +282,7 @@ pub fn exec(dev: &mut Device, x: &U2fSpec, log: &mut Log) -> Option<Finding> {
 
 pub fn plan(tier: &str) -> u64 {
     match tier {
-        "thorough" => 60_000,
+        "thorough" => 400_000,
         "selfcheck" => 20_000,
         _ => 4_000,
     }
